@@ -220,21 +220,24 @@ Section Lexer.
     | IDone acc n => LTok (mkTok TIdent (rev acc) p0) (set_pos st (p0 + n))
     end.
 
-  (* lex.nextToken (lexer.go:169-284).  f = remaining recursion depth. *)
-  Fixpoint next_token (f : nat) (st : lstate) : lres :=
-    match f with
-    | O => LDeep
-    | S f' =>
+  (* lex.nextToken (lexer.go:169-284) is split in two: token_step is one activation of the function
+     up to either its return or its tail call `return l.nextToken()`; next_token iterates it, the
+     fuel f being the remaining recursion depth. *)
+  Inductive action :=
+  | ARet (r : lres)            (* return a token / fail *)
+  | ARec (st : lstate).        (* return l.nextToken() with the lexer in this state *)
+
+  Definition token_step (st : lstate) : action :=
       match scan is_space (skipn (pos st) bytes) with           (* stripSpaces *)
-      | None => LInternal
+      | None => ARet LInternal
       | Some k0 =>
         let p0 := (pos st + k0)%nat in
         if (0 <? unind st)%nat then
-          LTok (mkTok TUnindent [] p0)
-               (mkL p0 (indent st) (braces st) (pred (unind st)) (indents st) (lastEOL st))
+          ARet (LTok (mkTok TUnindent [] p0)
+               (mkL p0 (indent st) (braces st) (pred (unind st)) (indents st) (lastEOL st)))
         else
         match byte_at bytes p0 with
-        | None => LInternal
+        | None => ARet LInternal
         | Some next =>
           (* rawString / fString: bytes[pos+1] is read only when next is 'r' / 'f' *)
           let pre (c : N) : option bool :=
@@ -242,42 +245,42 @@ Section Lexer.
               match byte_at bytes (S p0) with None => None | Some b => Some (is_quote b) end
             else Some false in
           match pre 114, pre 102 with
-          | None, _ | _, None => LInternal
+          | None, _ | _, None => ARet LInternal
           | Some raw, Some fstr =>
-            if negb (raw || fstr) && ident_start next then consume_ident p0 st
+            if negb (raw || fstr) && ident_start next then ARet (consume_ident p0 st)
             else
             let p1 := if raw || fstr then S p0 else p0 in
             match byte_at bytes p1 with
-            | None => LInternal
+            | None => ARet LInternal
             | Some c =>
               let p2 := S p1 in
-              let single := LTok (tok1 c p0) (set_pos st p2) in
-              if c =? 0 then LTok (mkTok TEOF [] p0) (set_pos st p2)
-              else if c =? 13 then next_token f' (set_pos st p2)
+              let single := ARet (LTok (tok1 c p0) (set_pos st p2)) in
+              if c =? 0 then ARet (LTok (mkTok TEOF [] p0) (set_pos st p2))
+              else if c =? 13 then ARec (set_pos st p2)
               else if c =? 10 then
                 match scan is_space (skipn p2 bytes) with
-                | None => LInternal
+                | None => ARet LInternal
                 | Some k =>
                   let p3 := (p2 + k)%nat in
                   match byte_at bytes p3 with
-                  | None => LInternal
+                  | None => ARet LInternal
                   | Some b =>
-                    if b =? 10 then next_token f' (set_pos st p3)
+                    if b =? 10 then ARec (set_pos st p3)
                     else
                     let ind := if (braces st =? 0)%nat then k else indent st in
-                    let cont (tp : nat) (stk : list nat) (un : nat) : lres :=
+                    let cont (tp : nat) (stk : list nat) (un : nat) : action :=
                       let st' := mkL p3 ind (braces st) un stk (lastEOL st) in
                       if (braces st =? 0)%nat && negb (lastEOL st)
-                      then LTok (mkTok TEOL [] tp) st'
-                      else next_token f' st' in
+                      then ARet (LTok (mkTok TEOL [] tp) st')
+                      else ARec st' in
                     if (ind <? indent st)%nat && (braces st =? 0)%nat then
                       match pop_indents ind (indents st) (unind st) with
-                      | None => LInternal
+                      | None => ARet LInternal
                       | Some (stk, un) =>
                           match stk with
-                          | [] => LInternal
+                          | [] => ARet LInternal
                           | top :: _ => if (ind =? top)%nat then cont (S p0) stk un
-                                        else LErr (S p0)       (* "Unexpected indent" *)
+                                        else ARet (LErr (S p0))       (* "Unexpected indent" *)
                           end
                       end
                     else if negb (indent st =? ind)%nat then cont p0 (ind :: indents st) (unind st)
@@ -286,45 +289,54 @@ Section Lexer.
                 end
               else if c =? 48 then
                 match byte_at bytes p2 with
-                | None => LInternal
-                | Some b => if b =? 111 then consume_integer c p0 (S p2) st
-                            else consume_integer c p0 p2 st
+                | None => ARet LInternal
+                | Some b => if b =? 111 then ARet (consume_integer c p0 (S p2) st)
+                            else ARet (consume_integer c p0 p2 st)
                 end
-              else if in_range 49 57 c then consume_integer c p0 p2 st
-              else if is_quote c then consume_string c p0 p2 raw fstr st
+              else if in_range 49 57 c then ARet (consume_integer c p0 p2 st)
+              else if is_quote c then ARet (consume_string c p0 p2 raw fstr st)
               else if (c =? 40) || (c =? 91) || (c =? 123) then
-                LTok (tok1 c p0) (mkL p2 (indent st) (S (braces st)) (unind st) (indents st) (lastEOL st))
+                ARet (LTok (tok1 c p0) (mkL p2 (indent st) (S (braces st)) (unind st) (indents st) (lastEOL st)))
               else if (c =? 41) || (c =? 93) || (c =? 125) then
-                LTok (tok1 c p0) (mkL p2 (indent st) (pred (braces st)) (unind st) (indents st) (lastEOL st))
+                ARet (LTok (tok1 c p0) (mkL p2 (indent st) (pred (braces st)) (unind st) (indents st) (lastEOL st)))
               else if (c =? 61) || (c =? 33) || (c =? 43) || (c =? 60) || (c =? 62) then
                 match byte_at bytes p2 with
-                | None => LInternal
-                | Some b => if b =? 61 then LTok (mkTok TLexOperator [c; b] p0) (set_pos st (S p2))
+                | None => ARet LInternal
+                | Some b => if b =? 61 then ARet (LTok (mkTok TLexOperator [c; b] p0) (set_pos st (S p2)))
                             else single
                 end
               else if (c =? 44) || (c =? 46) || (c =? 37) || (c =? 42) || (c =? 124) || (c =? 38) || (c =? 58)
               then single
               else if c =? 47 then
                 match byte_at bytes p2 with
-                | None => LInternal
-                | Some b => if b =? 47 then LTok (mkTok TLexOperator [c; b] p0) (set_pos st (S p2))
+                | None => ARet LInternal
+                | Some b => if b =? 47 then ARet (LTok (mkTok TLexOperator [c; b] p0) (set_pos st (S p2)))
                             else single
                 end
               else if c =? 35 then
                 match scan not_eol_nul (skipn p2 bytes) with
-                | None => LInternal
-                | Some k => next_token f' (set_pos st (p2 + k))
+                | None => ARet LInternal
+                | Some k => ARec (set_pos st (p2 + k))
                 end
               else if c =? 45 then
                 match byte_at bytes p2 with
-                | None => LInternal
-                | Some b => if is_digit b then consume_integer c p0 p2 st else single
+                | None => ARet LInternal
+                | Some b => if is_digit b then ARet (consume_integer c p0 p2 st) else single
                 end
-              else LErr p0                 (* tab: "Tabs are not permitted"; default: "Unknown symbol" *)
+              else ARet (LErr p0)          (* tab: "Tabs are not permitted"; default: "Unknown symbol" *)
             end
           end
         end
-      end
+      end.
+
+  Fixpoint next_token (f : nat) (st : lstate) : lres :=
+    match f with
+    | O => LDeep
+    | S f' =>
+        match token_step st with
+        | ARet r => r
+        | ARec st' => next_token f' st'
+        end
     end.
 
   Definition is_eol_unindent (t : Z) : bool := (t =? TEOL)%Z || (t =? TUnindent)%Z.
